@@ -356,6 +356,52 @@ def _snapshot(t, fn):
     return None
 
 
+def _access_atoms(t, params):
+    """maximal access paths (x, x.a, x.a.b, x[const]) rooted at a parameter or at the element of an enclosing loop that term t reads"""
+    out = set()
+
+    def rooted(z):
+        while z[0] == 'attr' or (z[0] == 'sub' and z[2][0] in ('str', 'num')):
+            z = z[1]
+        return (z[0] == 'var' and z[1] in params) or z[0] == 'elem'
+
+    def walk(z, top=True):
+        if not isinstance(z, tuple) or not z or not isinstance(z[0], str):
+            if isinstance(z, (tuple, list)):
+                for y in z:
+                    walk(y)
+            return
+        if (z[0] in ('attr', 'var', 'elem') or (z[0] == 'sub' and z[2][0] in ('str', 'num'))) and rooted(z):
+            out.add(z)
+            return
+        for y in z[1:]:
+            if isinstance(y, (tuple, list)):
+                walk(y)
+    walk(t)
+    return out
+
+
+_DATE_PARTS = {'month', 'day', 'dayofyear', 'day_of_year', 'dayofweek', 'day_of_week', 'weekday', 'week', 'quarter', 'is_month_end', 'is_month_start'}
+
+
+def _determined(a, katoms):
+    """the key atoms pin down what access path a denotes: the path itself or the object it is read from is in the key, or - calendar dates - the key holds the
+    year together with month+day or the day of the year (a day of the year WITHOUT the year is the same in every year)"""
+    z = a
+    while True:
+        if z in katoms:
+            return True
+        if z[0] in ('attr', 'sub'):
+            z = z[1]
+        else:
+            break
+    if a[0] == 'attr' and a[2] in _DATE_PARTS:
+        have = {k_[2] for k_ in katoms if k_[0] == 'attr' and k_[1] == a[1]}
+        if 'year' in have and ({'month', 'day'} <= have or have & {'dayofyear', 'day_of_year'}):
+            return True
+    return False
+
+
 def _generation_tag(ctx, fn, ps, table, missing):
     """A memo whose key leaves out parameter P is still sound when the object remembers, in a tag field F, the P its entries were computed for, and empties the
     table whenever it is asked about another P:  `if self.F != P: self.F = P; self.M.clear()`  before the table is consulted.
@@ -437,20 +483,34 @@ def memo_tables(ctx, fn, ps):
         if walked:
             out[m] = ('other', 'entries are advanced from their previous value (a cursor, not a memo)')
             continue
-        if len(keys) != 1:
+        # several keys of one shape (the same tuple with other constants: one memo serving four fixed times of day) are judged entry by entry
+        shapes = {T.tkey(T.replace(k_, lambda z: T.ZERO if z[0] in ('num', 'str', 'const') else None)) for k_ in keys}
+        if len(keys) != 1 and (len(shapes) != 1 or len(keys) > 12):
             out[m] = ('other', 'several key shapes')
             continue
-        K = next(iter(keys))
-        kparams = {s_[1] for s_ in T.subterms(K) if s_[0] == 'var'}
+        K = sorted(keys, key=fmt)[0]
         verdict = None
         for i, w in ws:
             p = ps[i]
+            Kw = w.loc[2]
+            kparams = {s_[1] for s_ in T.subterms(Kw) if s_[0] == 'var'}
+            katoms = _access_atoms(Kw, params)
             deps = {s_[1] for s_ in T.subterms(w.value) if s_[0] == 'var' and s_[1] in params}
             for c, v_, _ in p.conds:
                 if c[0] == 'cmp' and c[1] == 'in' and c[3] == table:
                     continue
                 deps |= {s_[1] for s_ in T.subterms(c) if s_[0] == 'var' and s_[1] in params}
             missing = sorted(deps - kparams)
+            if not missing:
+                # finer than whole parameters: the value reads x.year, x.month, x.day while the key holds x.dayofyear only - which parts of an object (a parameter,
+                # the element of the loop the memo is filled in) the key pins down
+                def root_(z):
+                    while z[0] in ('attr', 'sub'):
+                        z = z[1]
+                    return z
+                kroots = {root_(k_) for k_ in katoms}
+                # (elements of loops the key does not speak about - the sources tried in turn for one answer - are not what the entry is "for")
+                missing = sorted({fmt(a_) for a_ in _access_atoms(w.value, params) if (root_(a_)[0] == 'var' or root_(a_) in kroots) and not _determined(a_, katoms)})
             fields = {s_[2] for s_ in T.subterms(w.value) if s_[0] == 'attr' and s_[1] == V('self') and s_[2] != m}
             mutable = sorted(f_ for f_ in fields if fn.cls is not None and ctx.M.field_written_outside_init(fn.cls, f_))
             if missing:
@@ -458,10 +518,10 @@ def memo_tables(ctx, fn, ps):
                 if pin is True:
                     missing = []
                 elif pin is not None:
-                    verdict = ('unsound', K, missing, pin)
+                    verdict = ('unsound', Kw, missing, pin)
                     break
             if missing:
-                verdict = ('unsound', K, missing)
+                verdict = ('unsound', Kw, missing)
                 break
             if mutable:
                 verdict = ('other', 'the stored value reads %s, which is rewritten after construction' % mutable)
@@ -469,7 +529,7 @@ def memo_tables(ctx, fn, ps):
         if verdict is None:
             # hit paths: a membership test on the same key, the table entry returned, nothing written
             hits = [p for p in ps if any(c[0] == 'cmp' and c[1] == 'in' and c[3] == table and v_ for c, v_, _ in p.conds)]
-            bad = [p for p in hits if p.outcome == 'return' and any(s_[0] == 'sub' and s_[1] == table and s_[2] != K for s_ in T.subterms(p.value or T.ZERO))]
+            bad = [p for p in hits if p.outcome == 'return' and any(s_[0] == 'sub' and s_[1] == table and s_[2] not in keys for s_ in T.subterms(p.value or T.ZERO))]
             verdict = ('other', 'a hit reads the table under another key') if bad else ('sound', K)
         out[m] = verdict
     return out
